@@ -27,7 +27,6 @@ enum Probe
 	P_FRONT2D,
 	P_FRONT3D,
 	P_VEGAS_MDS_NEG,
-	P_VEGAS_ND_LT50,
 	P_MISER_FLAT,
 	P_NARROW_UNDERFLOW,
 	P_SOLO_COMPARED,
@@ -42,7 +41,7 @@ enum Probe
 	P_BUDGET_1E6,
 	P_NPROBES
 };
-const char* PROBE_NAMES[] = {"integrator_calls", "integrand_evaluations", "method_plain_mc", "method_vegas", "method_miser", "frontend_integrate_2d", "frontend_integrate_3d", "vegas_stratification_off_branch(2ng>=50)", "vegas_grid_smaller_than_50", "miser_call_with_mostly_flat_zero_integrand", "narrow_peak_underflows_to_zero", "history_vs_pristine_process_comparisons", "repeat_inside_history_comparisons", "accuracy_checks_on_regular_integrands", "accuracy_escalations", "ensemble_bias_tests", "constant_integrand_checks", "fault_entropy_edge_seed(0,1,2^32-1,repeat)", "history_changes_dimension_before_compared_call", "budget_1e5_or_more", "budget_1e6"};
+const char* PROBE_NAMES[] = {"integrator_calls", "integrand_evaluations", "method_plain_mc", "method_vegas", "method_miser", "frontend_integrate_2d", "frontend_integrate_3d", "vegas_stratification_off_branch(2ng>=50)", "miser_call_with_mostly_flat_zero_integrand", "narrow_peak_underflows_to_zero", "history_vs_pristine_process_comparisons", "repeat_inside_history_comparisons", "accuracy_checks_on_regular_integrands", "accuracy_escalations", "ensemble_bias_tests", "constant_integrand_checks", "fault_entropy_edge_seed(0,1,2^32-1,repeat)", "history_changes_dimension_before_compared_call", "budget_1e5_or_more", "budget_1e6"};
 
 enum Metric
 {
@@ -379,9 +378,6 @@ struct Exec
 			if(2 * ng - 50 >= 0)
 			{
 				ctx.probe(P_VEGAS_MDS_NEG);
-				int npg = ng / 50 + 1;
-				if(ng / npg < 50)
-					ctx.probe(P_VEGAS_ND_LT50);
 			}
 		}
 		if(c.method == 2 && r.evals && r.zeros * 2 > r.evals)
